@@ -123,18 +123,20 @@ Proof.
     + intros K1. split; discriminate.
   - (* AError *)
     wc H c c' Hg Hf. destruct (get_some _ _ _ Hg) as (Hn & _). pose proof (gsinv_get _ _ _ G Hn) as [A B C].
-    assert (K : exists t k st, trans (cst c) ABORTABLE = Some t /\ c' = c_clear c t /\ slot c = Some (k, st) /\ k <> KEnd).
+    assert (K : exists t k st, trans (cst c) ABORTABLE = Some t /\ c' = c_err c t /\ slot c = Some (k, st) /\ k <> KEnd).
     { destruct (slot c) as [[[] ?]|]; try discriminate; destruct (cst c); try discriminate;
+        destruct (forallb _ (queue c)); try discriminate;
         match type of Hf with match ?t with _ => _ end = _ => destruct t eqn:T end; try discriminate;
         inversion Hf; do 3 eexists; (split; [reflexivity|]); (split; [reflexivity|]); (split; [reflexivity|]);
         discriminate. }
     destruct K as (t & k & st & T & -> & Sl & Nk). pose proof (trans_target _ _ _ T). subst t.
-    apply gsinv_put; auto. constructor; unfold c_clear; simpl.
+    apply gsinv_put; auto. constructor; unfold c_err; simpl.
     + discriminate.
     + intros _ st' K. rewrite Sl in K. inversion K. congruence.
     + intros K. split; discriminate.
   - (* AFatal *)
     wc H c c' Hg Hf. destruct (get_some _ _ _ Hg) as (Hn & _). pose proof (gsinv_get _ _ _ G Hn) as [A B C].
+    destruct ((tcode (cst c) =? 1)%Z) eqn:Eu; [discriminate|].
     destruct (trans (cst c) FATAL) eqn:T; [|discriminate]. inv_some.
     pose proof (trans_target _ _ _ T). subst t.
     apply gsinv_put; auto. constructor; unfold c_clear; simpl.
@@ -239,7 +241,8 @@ Proof.
     repeat (apply andb_prop in Gd; destruct Gd as [Gd _]). apply slot_is_true in Gd.
     assert (Kc : cst c = COMMITTING /\ commit = true \/ cst c = ABORTING /\ commit = false).
     { destruct (cst c), commit; try discriminate; auto. }
-    assert (Kn : forall st', sinv (set_csent (set_slot c (Some (KEnd, st'))) (csent c || commit))).
+    assert (Kn : forall st', sinv (set_cend (set_deadb (set_csent (set_slot c (Some (KEnd, st'))) (csent c || commit)) [])
+                                           true)).
     { intros st'. constructor; simpl.
       - intros _ K. destruct Kc as [[_ K2]|[K2 _]]; [subst; apply orb_true_r | congruence].
       - intros [K|[K|K]]; destruct Kc as [[K2 _]|[K2 _]]; congruence.
@@ -592,7 +595,7 @@ Lemma linv_complete s i c o :
   (cst c = COMMITTING /\ o = OCommitted) \/ (cst c = ABORTING /\ o = OAborted) ->
   (* the obligation at this point *)
   (cst c = ABORTING -> csent c = false) ->
-  (slot c = Some (KEnd, SApplied) \/ accepted c = []) ->
+  (cst c = COMMITTING -> slot c = Some (KEnd, SApplied) \/ accepted c = []) ->
   forall c', same_L c (set_cst c' (cst c)) -> cst c' = READY ->
   linv (mkG (set_nth i c' (clients s)) (genv s) (ended s ++ [(tagof i c, o, accepted c)])).
 Proof.
@@ -659,9 +662,9 @@ Proof.
       * intros c0 D F. fold s' in D. rewrite Hc' in D. inversion D; subst c0. rewrite Ss. auto.
   - intros j k acc A x p B. apply V. apply in_app_or in A. destruct A as [A|[A|[]]]; [eauto|].
     inversion A; subst. destruct Hst as [(K1 & K2)|(K1 & K2)]; [|discriminate].
-    destruct Hsl as [Hsl|Hsl].
+    destruct (Hsl K1) as [Hsl'|Hsl'].
     + apply (L1 j c Hc); [apply (s_13 _ Si); auto | exact B].
-    + rewrite Hsl in B. destruct B.
+    + rewrite Hsl' in B. destruct B.
 Qed.
 
 (* ---------- AddPartitionsToTxn / AddOffsetsToTxn applied ------------------------------------------------ *)
@@ -1019,15 +1022,16 @@ Proof.
     apply linv_complete; auto.
     + eapply gsinv_get; eauto.
     + intros K. rewrite K in Ob. destruct (csent c); [discriminate | reflexivity].
-    + destruct (match cst c with ABORTING => csent c | _ => false end); [discriminate|].
+    + intros Kc. rewrite Kc in Ob.
       destruct (slot_is c KEnd SApplied) eqn:Sl; [left; apply slot_is_true; exact Sl|].
       right. destruct (accepted c); [reflexivity | discriminate].
     + constructor; reflexivity.
   - (* AError *)
     wc H c c' Hg Hf. destruct (get_some _ _ _ Hg) as (Hn & _).
-    assert (K : exists t, trans (cst c) ABORTABLE = Some t /\ c' = c_clear c t /\
+    assert (K : exists t, trans (cst c) ABORTABLE = Some t /\ c' = c_err c t /\
                           (cst c = IN_TXN \/ cst c = COMMITTING \/ cst c = ABORTING)).
     { destruct (slot c) as [[[] ?]|]; try discriminate; destruct (cst c); try discriminate;
+        destruct (forallb _ (queue c)); try discriminate;
         match type of Hf with match ?t with _ => _ end = _ => destruct t eqn:T end; try discriminate;
         inversion Hf; eexists; (split; [reflexivity|]); (split; [reflexivity|]); auto. }
     destruct K as (t & T & -> & St). pose proof (trans_target _ _ _ T). subst t.
@@ -1036,6 +1040,7 @@ Proof.
     + discriminate.
   - (* AFatal *)
     wc H c c' Hg Hf. destruct (get_some _ _ _ Hg) as (Hn & _).
+    destruct ((tcode (cst c) =? 1)%Z) eqn:Eu; [discriminate|].
     destruct (trans (cst c) FATAL) eqn:T; [|discriminate]. inv_some.
     pose proof (trans_target _ _ _ T). subst t.
     apply (linv_put_cst s i c _ FATAL Hn (gsinv_get _ _ _ GS Hn) L); try reflexivity.
@@ -1158,9 +1163,7 @@ Proof.
         -- left. auto.
       * destruct (Bool.eqb commit0 commit) eqn:Eb; [|discriminate]. inv_some.
         apply eqb_prop in Eb. subst commit0.
-        replace (put s i (set_csent (set_slot c (Some (KEnd, SApplied))) (csent c || commit)))
-          with (put_env (put s i (set_csent (set_slot c (Some (KEnd, SApplied))) (csent c || commit))) (genv s))
-          by reflexivity.
+        match goal with |- linv (put s i ?cc) => change (linv (put_env (put s i cc) (genv s))) end.
         apply (linv_endtxn s i c commit _ Hn L (gcinv_get _ _ _ GC Hn) Kc Gq Gi Gpo); try reflexivity.
         -- intros K. congruence.
         -- intros c0 K. rewrite Es in K. inversion K; subst c0. split; [reflexivity|].
